@@ -222,6 +222,11 @@ func (tr *Transaction) Commit() error {
 			cerr = tr.db.s.commit(&tr.rec, false)
 			if cerr != nil {
 				tr.commitFailed = true
+				// The record, which carries tr.seq, may have reached the manifest
+				// and may stay there (see discard). Consume the transaction's
+				// sequence numbers so that a later write can never collide with
+				// them and be skipped by journal recovery.
+				tr.db.setSeq(tr.seq)
 				tr.db.logf("transaction@commit error R·%d %q", retry, cerr)
 				select {
 				case <-time.After(time.Second):
